@@ -446,7 +446,7 @@ func parseCallOperand(o interface{}) (string, error) {
 		return operandType, nil
 	case float64:
 
-		return fmt.Sprint(operandType), nil
+		return strconv.FormatFloat(operandType, 'f', -1, 64), nil
 	case bool:
 		if operandType {
 
@@ -525,7 +525,7 @@ func parseOperand(o interface{}, noWrap bool, negation bool) (string, error) {
 			return "", fmt.Errorf("a number cannot be negated")
 		}
 
-		return fmt.Sprint(operandType), nil
+		return strconv.FormatFloat(operandType, 'f', -1, 64), nil
 	case bool:
 
 		if operandType != negation {
